@@ -394,6 +394,29 @@ def rule_run(ctx, repo):
               "eigen-analysis steps out of order", r.W())
 
 
+def rule_sweep(ctx, repo):
+    """a swept parameter may be the time constant of a state: the write must go through Model.set/alter (which maintain dae.Tf and
+    TDS.Teye, C11.tconst) or be followed by a refresh of the time constants before the state matrix is rebuilt."""
+    f = F.method(repo, "EIG", "sweep", EIG)
+    direct = []
+    for n in walk_noscope(f.fn):
+        if isinstance(n, (ast.Assign, ast.AugAssign)):
+            for t in (n.targets if isinstance(n, ast.Assign) else [n.target]):
+                if isinstance(t, ast.Subscript) and (dotted(t.value) or "").endswith(".v") and not (dotted(t.value) or "").startswith("self."):
+                    direct.append(n)
+    via_set = [c for c in calls_in(f.fn) if (dotted(c.func) or "").endswith((".owner.set", ".owner.alter", ".set", ".alter"))
+               and "owner" in src(c.func)]
+    refresh = f.calls("_store_tf")
+    cas = f.calls("self.calc_As")
+    ok = (not direct and bool(via_set)) or (bool(refresh) and bool(cas) and f.before(refresh, cas)[0])
+    ctx.check(ok, "C08.sweep", "EIG.sweep/parameter-write", "swept values are written through Model.set/alter (or Tf is refreshed) before calc_As",
+              "sweep writes the parameter array directly (%s) and never refreshes dae.Tf: sweeping the time constant of a differential "
+              "equation leaves T^-1 in the state matrix at its old value" % [src(d) for d in direct][:1], f.W(direct[0]) if direct else f.W())
+    ok, wit = f.before(f.calls("TDS.itm_step"), cas) if cas else (False, "")
+    ctx.check(ok, "C08.sweep", "EIG.sweep/relinearise", "Jacobians re-evaluated (itm_step) before each calc_As",
+              "state matrix rebuilt from stale Jacobians during a sweep " + wit, f.W())
+
+
 def run(ctx):
     ctx.rule("C08.partition", "the three sign-count predicates are pairwise disjoint and exhaustive over all order types of "
              "Re(mu) relative to -tol < 0 < tol", 1)
@@ -404,6 +427,7 @@ def run(ctx):
              "2x2 partition at nz_counts", 3)
     ctx.rule("C08.axes", "axis-label inference (state/mode) through eig, solve, .T, *, @, subscripts: no index or element-wise "
              "product mixes axes; returned orientation matches the report", 5)
+    ctx.rule("C08.sweep", "parameter sweeps keep dae.Tf / Jacobians current ('every operating point, including after parameter sweeps')", 2)
     ctx.assume("numpy.linalg.eig returns eigenvectors as columns; kvxopt linsolve(A, B) overwrites B with A^-1 B")
     ctx.assume("numerical accuracy of eig/linsolve and 'every operating point' are declined")
     repo = Repo()
@@ -412,3 +436,4 @@ def run(ctx):
     rule_scaling(ctx, repo)
     rule_axes(ctx, repo)
     rule_run(ctx, repo)
+    rule_sweep(ctx, repo)
